@@ -144,3 +144,24 @@ func (x *Exec) timeCmp(tv, uv Value, slt, ult Op, after bool) Value {
 }
 
 var _ = types.Typ
+
+func init() {
+	extraNatives = append(extraNatives, func(e *Engine) {
+		// log.FromCtx / log.Root: pkg/log is a no-op package (zero results), but callers invoke methods
+		// on the returned Logger; give them the package's own DiscardLogger.
+		const logPkg = "github.com/scionproto/scion/pkg/log"
+		discard := func(x *Exec, fr *frame, a []Value) Value {
+			p := x.eng.pkgs[logPkg]
+			if p == nil || p.Type("DiscardLogger") == nil {
+				x.unsupported("log.FromCtx: pkg/log.DiscardLogger not loaded")
+			}
+			return Iface{t: p.Type("DiscardLogger").Type(), v: Struct{}}
+		}
+		if e.natives[logPkg+".FromCtx"] == nil {
+			e.natives[logPkg+".FromCtx"] = discard
+		}
+		if e.natives[logPkg+".Root"] == nil {
+			e.natives[logPkg+".Root"] = discard
+		}
+	})
+}
